@@ -278,6 +278,8 @@ fn verif_pyarrays() {
         }
         s.push(')');
         writeln!(out, "{}", s).unwrap();
+        // one flush per case: when the process is killed (watchdog) the caller sees how far it got
+        out.flush().unwrap();
     }
     out.flush().unwrap();
     let _ = std::panic::take_hook();
